@@ -216,6 +216,7 @@ OpProps(op) ==
       [] op \in {"Reset"} -> <<"C15">>
       [] op \in {"ResAdd", "ResRemove", "ResGet"} -> <<"C20">>
       [] op \in {"Dump", "Load"} -> <<"C17">>
+      [] op \in {"RegisterTypes"} -> <<"C16">>
       [] OTHER -> <<"C10">>
 
 (* why: "" when legal; else "locked", "dead-target" or "args".             *)
@@ -358,7 +359,7 @@ EvBatchSetRelation(ln, w) ==
     IN
     IF usable /\ OpenRel(w, f) THEN Skip(w)
     ELSE IF up # "" THEN Res(w, OutcomeChecks(ln, up), {})
-    ELSE IF ~BatchSetRelAllRel(w, M, a.rel) THEN Skip(w)
+    ELSE IF ~BatchSetRelAllRel(w, M, a.rel, a.tgt) THEN Skip(w)
     ELSE
         LET good == ~ln.res.panic
             w1 == IF good THEN BatchSetRelStep(w, M, a.tgt) ELSE w
@@ -566,6 +567,7 @@ Eval(ln, w) ==
       [] ln.op = "Read" -> EvRead(ln, w)
       [] ln.op \in {"ResAdd", "ResRemove"} -> EvRes(ln, w)
       [] ln.op = "GC" -> Res(w, <<>>, {})
+      [] ln.op = "RegisterTypes" -> Res(w, OutcomeChecks(ln, LockWhy(w)), {})
       [] ln.op = "GCCheck" ->
             Res(w, << Chk("C14", "gc-checkpoint-ran", ~ln.res.panic),
                       Chk("C14", "unreferenced-payloads-released", ln.res.panic \/ ln.gc.leaked = <<>>) >>, {})
@@ -701,11 +703,17 @@ TwinChecks(ln) ==
           Chk("C15", "twin-same-queries", PanelEq(a, b)),
           Chk("C15", "twin-same-resources-and-lock", a.obs.res = b.obs.res /\ a.obs.locked = b.obs.locked) >>
     ELSE
-       << Chk("C17", "twin-same-handles", a.res.handles = b.res.handles /\ a.obs.issued = b.obs.issued),
+       << Chk("C17", "twin-same-handles",
+              /\ a.obs.issued = b.obs.issued
+              /\ (ln.of \in {"NewEntity", "NewEntityWith", "BuilderNew", "NewBatch"} => a.res.handles = b.res.handles)),
           Chk("C17", "twin-same-pool", PoolOf(a.obs.pool) = PoolOf(b.obs.pool)
                                         /\ SetOf(a.obs.pool.alive) = SetOf(b.obs.pool.alive)),
           Chk("C17", "twin-same-alive-answers", a.obs.alive = b.obs.alive /\ a.obs.used = b.obs.used
                                                  /\ SetOf(a.obs.all) = SetOf(b.obs.all)),
+          Chk("C17", "dump-value-unchanged-by-loading", "dumpNow" \notin DOMAIN ln \/ ln.dumpNow = ln.dumpThen),
+          Chk("C17", "dump-loads-the-same-again",
+              "reload" \notin DOMAIN ln \/ (ln.reload.ok /\ PoolOf(ln.reload) = PoolOf(ln.dumpThen)
+                                            /\ SetOf(ln.reload.alive) = SetOf(ln.dumpThen.alive))),
           Chk("C17", "twin-second-dump-identical",
               ln.of # "Dump" \/ (a.res.panic = b.res.panic /\
                                    (a.res.panic \/ (PoolOf(a.dump) = PoolOf(b.dump) /\ SetOf(a.dump.alive) = SetOf(b.dump.alive))))) >>
